@@ -76,8 +76,13 @@ func genC32(r *sim.Rand, tier string) *sim.Case {
 			}
 			c.Ops = append(c.Ops, sim.Op{K: "beginmany", A: t, B: gap(), C: int64(cnt), D: gap()})
 			begins += cnt
-		case k < 10:
+		case k < 9:
 			c.Ops = append(c.Ops, sim.Op{K: "rebegin", A: t, B: int64(r.Intn(4)), C: int64(r.Intn(4))})
+		case k < 10 && begins < 8:
+			// one more Begin of the newest index (a reader that starts at the snapshot
+			// its predecessors used, possibly after they all finished)
+			c.Ops = append(c.Ops, sim.Op{K: "latebegin", A: t})
+			begins++
 		case k < 15:
 			c.Ops = append(c.Ops, sim.Op{K: "done", A: t, B: int64(r.Intn(4))})
 		case k < 16:
@@ -97,6 +102,10 @@ type wmUnit struct {
 	cause string // why the mark could reach idx (set when it did)
 	// held: Begin returned and Done not yet invoked
 	reported bool
+	// late: a further Begin of the newest index, serialised with the other Begins but
+	// not guarded by a held index. The mark may stand on (or arrive at) the index;
+	// what it must not do is move past it.
+	late bool
 }
 
 type wmToken = wmUnit
@@ -371,6 +380,15 @@ func (w *wmWorld) afterStep(prevMark, mark uint64) {
 	// 3. The mark must be below every held index.
 	for _, tk := range w.tokens {
 		res.Checks++
+		if tk.late {
+			if mark > tk.idx && !tk.reported {
+				tk.reported = true
+				res.Violate(res.Steps, "passed_unfinished", map[string]string{"cause": "begun_at_newest_index"},
+					"DoneUntil=%d moved past index %d, which task %d has begun (as a further Begin of the newest index) and not finished (window=%d)",
+					mark, tk.idx, tk.task, w.b.c.CfgInt("window", 0))
+			}
+			continue
+		}
 		if mark >= tk.idx && !tk.reported {
 			tk.reported = true
 			cause := tk.cause
@@ -389,7 +407,7 @@ func (w *wmWorld) runTask(ctx context.Context, id int, ops []sim.Op) {
 	for _, op := range ops {
 		b.sched.Yield(nil, "h.op")
 		switch op.K {
-		case "begin", "beginmany":
+		case "begin", "beginmany", "latebegin":
 			// serialised, increasing new indices
 			for {
 				b.mu.Lock()
@@ -410,6 +428,25 @@ func (w *wmWorld) runTask(ctx context.Context, id int, ops []sim.Op) {
 				if n > 4 {
 					n = 4
 				}
+			}
+			if op.K == "latebegin" {
+				b.mu.Lock()
+				idx := w.lastBegun
+				if idx == 0 {
+					idx = 1
+					w.lastBegun = 1
+				}
+				w.startFlight(id, []uint64{idx})
+				w.flights[id].units[0].late = true
+				w.flights[id].units[0].cause = ""
+				b.mu.Unlock()
+				b.emit(id, op.K, int64(idx), int64(idx), "call")
+				w.wm.Begin(idx)
+				w.endFlight(id)
+				b.mu.Lock()
+				w.beginBusy = false
+				b.mu.Unlock()
+				continue
 			}
 			b.mu.Lock()
 			idxs := make([]uint64, 0, n)
@@ -514,6 +551,9 @@ func (w *wmWorld) runTask(ctx context.Context, id int, ops []sim.Op) {
 			b.mu.Lock()
 			var bad uint64
 			for _, tk := range w.tokens {
+				if tk.late && tk.idx == idx {
+					continue // the mark may already stand on a late unit's index
+				}
 				if tk.idx <= idx && (bad == 0 || tk.idx < bad) {
 					bad = tk.idx
 				}
